@@ -11,6 +11,7 @@ import json
 import os
 import subprocess
 import sys
+import tempfile
 import time
 
 import z3
@@ -229,10 +230,13 @@ def main(argv=None):
         for oid in xcheck["disagreements"]:
             checker_errors.append(core.Obligation(oid, [pid], "xcheck", [], None, note="back ends disagree on sat/unsat", status="solver_disagreement"))
     for name, kind, msg in fam_errors:
-        if kind == "error":
+        # an exception inside a family that produced obligations when the baseline was recorded means the CODE changed into
+        # something the contract's model does not cover: undecided (exit 2, L3 decides), not a checker error.  A family that
+        # crashes without such a history is a bug of the machinery (exit 3).
+        if kind == "error" and not missing:
             checker_errors.append(core.Obligation(f"{pid}/<family {name}>", [pid], "family", [], None, note=msg, status="family_error"))
         else:
-            undecided.append(core.Obligation(f"{pid}/<family {name}>", [pid], "family", [], None, note=msg, status="untranslatable"))
+            undecided.append(core.Obligation(f"{pid}/<family {name}>", [pid], "family", [], None, note=("the contract's model raised on this tree (family translatable at baseline): " if kind == "error" else "") + msg, status="untranslatable"))
     for oid in missing:
         if not any(u.oid.startswith(f"{pid}/<family") for u in undecided) and not fam_errors:
             checker_errors.append(core.Obligation(oid, [pid], "missing", [], None, note="obligation listed in contracts/baseline.json was not generated", status="missing"))
@@ -338,8 +342,12 @@ def main(argv=None):
         wall_s=round(time.time() - t0, 2),
         violations=len(violations) + len(l3_viol),
     )
-    os.makedirs(os.path.join(VERIF, "evidence"), exist_ok=True)
-    with open(os.path.join(VERIF, "evidence", f"{pid}.json"), "w") as fh:
+    # evidence describes /repo's working tree; a run against a scratch copy (bin/mutcheck, FJVC_REPO) must not overwrite it,
+    # and neither does a partial run (--only / --no-l3)
+    partial = bool(args.only) or args.no_l3
+    ev_dir = os.path.join(VERIF, "evidence") if (os.path.realpath(REPO) == "/repo" and not partial) else os.path.join(tempfile.gettempdir(), "fjvc-scratch-evidence")
+    os.makedirs(ev_dir, exist_ok=True)
+    with open(os.path.join(ev_dir, f"{pid}.json"), "w") as fh:
         json.dump(ev, fh, indent=1, default=str)
     print(f"{pid} [{tier}] obligations={n_ob} discharged={n_dis} violations={len(violations) + len(l3_viol)} undecided={len(undecided)} checker_errors={len(checker_errors)} "
           f"known={len(known_hits)} l3={'%d evals' % l3.get('evaluations', 0) if l3.get('ran') else 'off'} wall={time.time() - t0:.1f}s exit={exit_code}")
